@@ -164,6 +164,22 @@ def _work(item):
             if diff:
                 res['problems'].append({'kind': 'compare-not-empty', 'case': label,
                                         'diff': str(diff)[:300]})
+            if label == 'plain':
+                # another solution written over the same files and compared again: what was
+                # read from those paths before must not show through
+                inp2 = inputs_of(g, ovset)
+                try:
+                    sol_b = m.calculate(inputs=inp2)
+                    m.write(solution=sol_b, dirpath=outd)
+                    diff2 = m.compare(*[os.path.join(outd, fn) for fn in sorted(os.listdir(outd))],
+                                      solution=sol_b)
+                except BaseException as ex:  # noqa
+                    if isinstance(ex, (KeyboardInterrupt, SystemExit)):
+                        raise
+                    diff2 = 'raises %s: %s' % (type(ex).__name__, str(ex)[:150])
+                if diff2:
+                    res['problems'].append({'kind': 'compare-not-empty', 'case': 'rewritten',
+                                            'diff': str(diff2)[:300]})
             # (c) into the loaded books: everything else must stay
             bk2 = m.write(books=m.books, solution=sol)
             targets.append(('loaded', {k: v[BOOK] for k, v in bk2.items()}, original))
